@@ -29,6 +29,11 @@ def run(ctx):
              "completely with the registry unreachable and zero fetches; compared with the model: outcome, waiter, "
              "blob.Cache call, set of chunks stored, every offline read. A case is distinct by (kind, sizes, landmark "
              "situation, build options, stack configuration, #chunks)",
+        extra={"harness_coupling": "the fs/layer harnesses use the exported API only (Resolver, Layer, go-fuse node "
+               "interfaces, reader.VerifiableReader, metadata.Reader); the two instrumentation points (chunk cache of "
+               "the reader, remote.Blob of the layer) are located by TYPE through reflection with an oracle-only "
+               "fallback; the waiter is observed through WaitForPrefetchCompletion, the timeout set through "
+               "prefetch_timeout_sec; only fs/reader.genID is used by name (export shim)"},
         assumptions=[
             "Honest / WF as in C02 (accepted chunks are the built payload; chunk tables tile the files)",
             "C14: the prioritized files are exactly the files whose first chunk lies before the prefetch landmark "
